@@ -286,7 +286,8 @@ def unspecified (t : Tok) (s : St) : Bool :=
   | .fmt f =>
     let zero := f.width.head? == some 48
     match f.conv with
-    | .d => false
+    | .d => -- C prints the sign of a zero with precision 0 ("+"), Go prints only the padding: not judged
+            (popInt s.stk).1 == 0 && f.prec.map decVal == some 0 && (f.flags.contains 43 || f.flags.contains 32)
     | .s => let a := (popStr s.stk).1
             zero || ((!f.width.isEmpty || f.prec.isSome) && a.any (· ≥ 128))
     | .c => let a := (popInt s.stk).1
